@@ -34,7 +34,12 @@ def cells(tier, seed):
             if rnd.random() < 0.3:
                 h = rnd.choice(sides)
             out.append({'wave': w, 'J': J, 'shape': [h, wd], 'mode': rnd.choice(['default', 'periodization', 'periodic']),
-                        'N': rnd.choice([1, 2]), 'C': rnd.choice([1, 2, 3])})
+                        'N': rnd.choice([1, 2, 4]), 'C': rnd.choice([1, 2, 3, 4])})
+    for _ in range(4 if tier == 'quick' else 60):      # many channels / wide batches
+        big = rnd.choice([32, 33, 64])
+        N, C = (1, big) if rnd.random() < 0.7 else (big, 1)
+        out.append({'wave': rnd.choice(['db2', 'sym4', 'bior2.2', 'haar', 'coif1']), 'J': 2, 'shape': [8, 12],
+                    'mode': rnd.choice(['default', 'periodization', 'periodic']), 'N': N, 'C': C})
     rnd.shuffle(out)
     return out
 
